@@ -12,6 +12,16 @@ def harnesses(tier, findings):
           rc.api(H, VERIF, 3, 3, 2, 3, 900, name="api_fault_k2_acq1_wrap", excludes=["FIX_EARLY=1", "CL_MODE=0", "FIX_N=2", "FAULT_KIND=2", "FAULT_AT=0", "FIX_ABORT=0", "FAULT_ACQ=1"])]
     if tier == "thorough":
         hs += [rc.source_unit(H, VERIF, 2, 3, 2, envmax=8, timeout=3000, tag="b"), rc.sink_unit(H, VERIF, 1, 2, 2, polls=2, envmax=5, tag="k2", timeout=3500)]
+    # averaging filter between source and sink: the sink dies (refuses writes) at an arbitrary boundary
+    _sp = importlib.util.spec_from_file_location("c10", os.path.join(VERIF, "props", "C10.py"))
+    _c10 = importlib.util.module_from_spec(_sp); _c10.H = H; _c10.VERIF = VERIF; _c10.REPO = REPO
+    _sp.loader.exec_module(_c10)
+    for arr, ss, ch, die in (((2,), 0, 1, 0), ((1, 1), 1, 8, 1), ((3,), 0, 8, 2), ((2, 1), 1, 1, 3)) + ((((1, 2), 0, 8, 4), ((4,), 0, 1, 5), ((2, 2), 1, 8, 6), ((3,), 0, 1, 1)) if tier == "thorough" else ()):
+        fh = _c10.sched(4, 2, arr, ss, ch)
+        fh.defines.append("DIE_AT=%d" % die)
+        fh.name = fh.name.replace("filter_flush", "filter_sinkdied") + "_die%d" % die
+        fh.what = "real video_filter_thread (k=2) while the sink dies at a scheduling boundary fixed per instance (refuses writes on the output ring, consumes nothing more): the filter keeps draining its input until the source's stop request and leaves nothing queued; " + fh.what.split(";", 1)[-1]
+        hs.append(fh)
     # sink died while the source may be blocked on a full ring
     sd = rc.source_unit(H, VERIF, 3, 2, 1, envmax=6)
     if "C09-source-blocked-when-sink-dies" in findings:
